@@ -13,16 +13,16 @@ LIFECYCLE_NOTE = ("Trusted: Lean kernel; the hand-written Lean model of session.
 CHECKS = {
     "C01": ("proof", "Theorems about the Lean model (listed in the evidence file) + per-run correspondence of the compiled model with the real package on directed and general histories + a monitor that evaluates the property on every implementation transcript; the assurance is the weaker of theorem and tie.", "6/C01"),
     "C02": ("proof", "T-local theorems about Start on forged cookies for every string and state of the model; exact differential tie incl. random bytes consumed; monitor on the real code.", "6/C02"),
-    "C03": ("proof", "T-local theorems (stale refused, Expired sound) on the model for all idle times/configurations; differential tie under the virtual clock on both sides of every threshold; monitor.", "6/C03"),
-    "C04": ("proof", "T-local rotation theorems on the model; differential tie (cookie, id, store, random bytes); monitor; schedules reduced to sequential order by C13 + lock bracket (partial for sub-request interleavings).", "6/C04"),
-    "C05": ("proof", "Theorems on chain following / back-stop / Expired for reference records on the model; differential tie with clean-up goroutines firing at exact virtual deadlines and real process restarts; monitor.", "6/C05"),
-    "C06": ("proof", "Theorems on the address matcher and fingerprint test for all inputs; differential tie over address/User-Agent matrices; monitor.", "6/C06"),
+    "C03": ("proof", "T-local theorems (stale refused, Expired sound) for all idle times/configurations and the history-level knowledge invariant (active sessions are kept through evictions, idle sweeps, purges: knows_all_histories, c03_active_kept) on the model; the staleness test and Expired() are REGENERATED from the source as expression trees and proved equal to the model's predicates for all values; differential tie under the virtual clock on both sides of and exactly on every threshold; monitor.", "6/C03, 13.8"),
+    "C04": ("proof", "T-local rotation theorems and history-level theorems (an id is turned into a reference once, at most one mint per due id, every request presenting it gets the same session: rot4_all_histories, c04_one_mint_per_due_id, c04_same_session) on the model; rotation guard and back-stop REGENERATED from the source and proved equal to the model's for all values; differential tie (cookie, id, store, random bytes); monitor; schedules reduced to sequential order by C13 + lock bracket and exercised by K concurrent Starts (partial for sub-request interleavings of different ids).", "6/C04, 13.8"),
+    "C05": ("proof", "Theorems on chain following (any length), back-stop, clean-up timers over all histories and Expired for reference records on the model; back-stop, grace period of the clean-up goroutine and Expired() REGENERATED from the source and proved equal to the model's; cache operations atomic (regenerated lock facts); differential tie with clean-up goroutines firing at exact virtual deadlines and real process restarts; monitor; concurrent family cleanup-race on real goroutines.", "6/C05, 13.2"),
+    "C06": ("proof", "Theorems on the address matcher and fingerprint test for all inputs; the address and User-Agent blocks of Start REGENERATED from the source (guards, loop header, loop body, assignments to the valid flag) and proved to compute the model's ipOK/uaOK for all values; differential tie over address/User-Agent matrices incl. IPv6 and IPv4-mapped peers; monitor.", "6/C06, 13.2"),
     "C07": ("proof", "Invariant-based theorems on the model + differential tie with restarts; monitor tracking every former id of ended sessions.", "6/C07"),
     "C08": ("proof", "T-local theorems for LogIn/LogOut/RefreshUser on the model; differential tie incl. stale listings; monitor on cached objects and stored records.", "6/C08"),
-    "C09": ("proof", "Coherence invariant proved over all fault-free histories of the model (every call boundary is a crash point) + ack-saved theorems for every fault oracle; differential tie; monitor comparing memory and store after every call.", "6/C09"),
+    "C09": ("proof", "Coherence invariant proved over all fault-free histories of the model (every call boundary is a crash point) + acknowledged-means-saved at the next boundary of EVERY history under every fault oracle (c09_ack_saved_global); cache operations atomic (regenerated lock facts); differential tie; monitor comparing memory and store after every call; concurrent family load-race (one object per cached session, coherent with its record).", "6/C09, 13.8"),
     "C10": ("proof", "Store-prefix safety on the model + every persistence-call boundary of every id change replayed on the real code with a frozen store and a real restart; monitor for dangling references and lost data.", "6/C10"),
-    "C11": ("proof", "Theorems for every fault oracle on the model (acknowledged => saved; failed load changes nothing) + single and pair fault injection at every persistence call of the base histories on the real code; monitor.", "6/C11"),
-    "C12": ("proof", "Theorems on compaction (size bound, LRU victim, flush before drop) for all states/choices of the model; differential tie incl. cache dumps; monitor.", "6/C12"),
+    "C11": ("proof", "Theorems for every fault oracle on the model, T-local and over ALL histories with faults (structural invariant, the store follows the shown events, a failed call changes nothing, a failed load is quiet, no record disappears without a shown delete, deletes only by invalidation: Proofs/Global/Faulty11*) + regenerated error table + single and pair fault injection at every persistence call of the base histories on the real code; monitor.", "6/C11, 13.8"),
+    "C12": ("proof", "Theorems on compaction (size bound, LRU victim, flush before drop, failed flush keeps the session) for all states/choices of the model and the size bound over all histories; the cache's conditions (idle sweep, may-grow test, clamp, eviction loop, victim scan, cache switch) REGENERATED from the source and proved equal to the model's for all values; store calls under the cache lock (regenerated); differential tie incl. cache dumps; monitor; concurrent family load-race.", "6/C12, 13.2"),
     "C18": ("proof", "Theorems on the cookie events of Start for all requests/states; differential tie on every Set-Cookie with all attributes under randomised templates; monitor.", "6/C18"),
     "C19": ("proof", "Theorems on base64/RandomID/CUID as pure functions and over the CUID state machine for all inputs; exact recomputation of every value the real package produces from recorded inputs; statistics on the real CSPRNG only support the uniform-source assumption.", "6/C19"),
     "C20": ("proof", "Theorems for all inputs and all word lists (first applicable rule, totality, list entries rejected, names monotone, Go-faithful rune decoding); the real function, the compiled model and an independent reference classifier answer the same queries (all 300k list entries in the thorough tier).", "6/C20"),
@@ -38,6 +38,21 @@ CHECKS.update({
 CHECKS["C15"] = ("proof", "Lock discipline: the access table of every Session field, cache.sessions and the CUID state is REGENERATED from the source on every run and `lockDiscipline_ok` (every access inside the right lock, or private, or write-once) is re-proved by the kernel; the generic theorem Drf.conflict_separated turns guarded accesses into happens-before separation; a small-step model of the four key/value methods is proved linearizable (GetAndDelete hands a value to at most one caller). Tie/search: the real package under the Go race detector on directed and random concurrent schedules (only reports with package frames count), panics, stuck goroutines, and a linearizability check of recorded key/value histories. Partial by nature: the Go memory model and the detector's completeness are not modelled.", "6/C15")
 
 PENDING = {}
+
+TECHNIQUE = {
+    "C03": "Lean 4 theorems about an executable model (T-local + history-level invariant) + decision logic regenerated from the source and proved equal to the model's + differential correspondence with the real code + property monitor",
+    "C04": "Lean 4 theorems about an executable model (T-local + history-level ghost invariant) + decision logic regenerated from the source + differential correspondence + property monitor + concurrent Start scenarios",
+    "C05": "Lean 4 theorems about an executable model + decision logic and lock facts regenerated from the source + differential correspondence + property monitor + concurrent family",
+    "C06": "Lean 4 theorems about an executable model + address/User-Agent decision logic regenerated from the source and proved to compute the model's tests + differential correspondence + property monitor",
+    "C12": "Lean 4 theorems about an executable model + cache conditions and lock facts regenerated from the source + differential correspondence + property monitor + concurrent family",
+    "C13": "Lean 4 invariant proofs about a transition system transcribed from mutexes.go + trace conformance of the real lock table (Lean checkers proved sound) + concurrent scenarios",
+    "C14": "Lean 4 safety and progress proofs about a transition system transcribed from mutexes.go + trace conformance of the real lock table + exact stuck detection under the virtual clock",
+    "C15": "Lean 4 theorems over a lock-discipline table regenerated from the source + happens-before and linearizability theorems + race detector and linearizability check as search",
+    "C16": "Lean 4 round-trip theorem over codec programs regenerated from the source + differential round trips of the real codec + golden corpus",
+    "C17": "Lean 4 round-trip/totality theorems over key tables regenerated from the source + differential round trips of the real codec + malformed inputs",
+    "C19": "Lean 4 theorems about pure models of the identifier functions + exact recomputation of the real package's outputs",
+    "C20": "Lean 4 theorems about a model of the rule cascade for all inputs and word lists + three-way differential with the real function",
+}
 
 
 def main():
@@ -58,7 +73,7 @@ def main():
             "Trusted: Lean kernel; the transition system transcribed by hand from mutexes.go (tied to /repo by trace conformance on every run); Go runtime (channel rendezvous, select, scheduler, virtual clock); holds shorter than the staleness timeout." if pid in ("C13", "C14") else
             "Trusted: Lean kernel; the go/ast extractor that regenerates the codec programs; encoding/gob, encoding/json, time and strconv (per-value round trip assumed as laws)." if pid in ("C16", "C17") else
             "Trusted: Lean kernel; the hand-written Lean functions (tied to /repo on every run by exact recomputation of the real package's outputs); Go standard library (crypto/rand, encoding/base64, strings.ToLower, gzip).",
-            "technique": "Lean 4 theorems about an executable model + differential correspondence with the real code + property monitor",
+            "technique": TECHNIQUE.get(pid, "Lean 4 theorems about an executable model + differential correspondence with the real code + property monitor"),
         })
     m = {
         "version": 1,
